@@ -423,6 +423,10 @@ class Check:
         self.cov['evaluations'] += res['events']
         self.cov['trace_specs'].append(dict(spec=module, executions=len(executions), events=res['events'],
                                             shards=res['shards'], mismatches=len(res['mismatches'])))
+        kinds = self.cov.setdefault('events_by_action', {})
+        for ex in executions:
+            for ev in ex:
+                kinds[f"{module}.{ev.get('e')}"] = kinds.get(f"{module}.{ev.get('e')}", 0) + 1
         for ex in executions:
             for ev in ex:
                 if ev.get('e') in ('Reset', 'End', 'Packet'):
